@@ -1,7 +1,7 @@
 #include "vh.h"
 #include "lib/crc16.h"
 
-// crc <init hex> <bytes hex> <piece lengths>
+// crc <init hex> <bytes hex> <piece lengths>   (a zero length at an odd index is passed as (NULL, 0))
 int vh_ops_crc(int argc, char **argv)
 {
 	VhBytes b;
@@ -14,7 +14,8 @@ int vh_ops_crc(int argc, char **argv)
 	for (i = 0; i < nk; ++i) {
 		size_t k = ks[i];
 		if (k > b.len - pos) k = b.len - pos;
-		lha_crc16_buf(&crc, b.data + pos, k);
+		// an empty piece is given alternately as (pointer into the buffer, 0) and as (NULL, 0): both are legal calls
+		lha_crc16_buf(&crc, (k == 0 && (i & 1)) ? NULL : b.data + pos, k);
 		pos += k;
 	}
 	lha_crc16_buf(&crc, b.data + pos, b.len - pos);
